@@ -159,6 +159,7 @@ pub fn case_damage(scratch: &Path, meta: usize, id: &str, seed: u64, len: usize,
         let mut hit_call: Option<usize> = None;
         let mut aimed = false;
         let mut class = "none";
+        let mut forged_max = false;
         let mut ops: Vec<Op> = Vec::new();
         if replay.is_some() {
             ops = fixed_variants[v].clone();
@@ -176,7 +177,7 @@ pub fn case_damage(scratch: &Path, meta: usize, id: &str, seed: u64, len: usize,
                 }
             }
         } else {
-            let k = if aimed_only { rng.below(3) } else { rng.below(12) };
+            let k = if aimed_only { rng.below(3) } else { rng.below(14) };
             if k < 3 && !live_frames.is_empty() {
                 // aimed: payload or checksum bytes of one frame
                 let fr = rng.pick(&live_frames).clone();
@@ -244,11 +245,41 @@ pub fn case_damage(scratch: &Path, meta: usize, id: &str, seed: u64, len: usize,
                     ops.push(Op::CopyFile { src, dst });
                 }
                 class = "duplicate_file";
-            } else {
+            } else if k < 12 {
                 let f1 = *rng.pick(&files);
                 let f2 = *rng.pick(&files);
                 ops.push(Op::CopyBlock { f1, i1: rng.below(4), f2, i2: rng.below(4) });
                 class = "transpose_block";
+            } else {
+                // a forged, CRC-valid frame holding a hostile entry, placed where the log ends
+                let (cf, co) = r.real.cursor;
+                let room = BLOCK - co % BLOCK;
+                if files.contains(&cf) && room >= 7 + 64 && co + room <= content(cf).len() as u64 {
+                    let names: Vec<String> = final_spec.queues.keys().cloned().collect();
+                    let name = if names.is_empty() || rng.chance(1, 4) { "forged".to_string() } else { rng.pick(&names).clone() };
+                    let name = if name.len() > 30 { "forged".to_string() } else { name };
+                    let next = final_spec.queues.get(&name).map(|q| q.next).unwrap_or(0);
+                    let big = [u64::MAX, u64::MAX - 1, next, next + 3, next.saturating_sub(1), 0];
+                    let pos = *rng.pick(&big);
+                    let tag = *rng.pick(&[1u8, 2, 3, 4, 4]);
+                    let mut e = vec![tag];
+                    e.extend_from_slice(&pos.to_le_bytes());
+                    e.extend_from_slice(&(name.len() as u16).to_le_bytes());
+                    e.extend_from_slice(name.as_bytes());
+                    forged_max = pos >= u64::MAX - 1;
+                    if tag == 4 {
+                        let mut p = pos;
+                        for _ in 0..(1 + rng.below(3)) {
+                            forged_max = forged_max || p >= u64::MAX - 1;
+                            e.extend_from_slice(&p.to_le_bytes());
+                            e.extend_from_slice(&3u32.to_le_bytes());
+                            e.extend_from_slice(&[1, 2, 3]);
+                            p = match rng.below(3) { 0 => p.wrapping_add(1), 1 => u64::MAX, _ => p.saturating_sub(1) };
+                        }
+                    }
+                    ops.push(Op::Poke { file: cf, off: co, data: crate::bytes::frame(1, &e, None, false) });
+                }
+                class = "forged_entry";
             }
         }
         for op in &ops {
@@ -269,7 +300,11 @@ pub fn case_damage(scratch: &Path, meta: usize, id: &str, seed: u64, len: usize,
             _ => false,
         });
         let copies_valid = ops.iter().any(|o| matches!(o, Op::CopyBlock { .. } | Op::CopyFile { .. }));
-        let tag = if copies_valid { "[replayed-valid-frames] " } else { "" };
+        // forged frames are CRC "collisions" by construction: outside C08/C12; they probe C10,
+        // where only positions at the top of the u64 range are known to panic (finding F4)
+        let forged = class == "forged_entry";
+        let in_place = in_place && !forged;
+        let tag = if copies_valid { "[replayed-valid-frames] " } else if forged && forged_max { "[position bound 2^64-1] " } else { "" };
         let ctx = format!("{}damage variant {} ({}; {})", tag, v, class, ops.iter().map(|o| { let l = o.line(); l[..l.len().min(60)].to_string() }).collect::<Vec<_>>().join(" + "));
         r.stats.inc(&format!("damage.open.{}", ex.outcome.line().split(' ').nth(1).unwrap_or("?")));
         match &ex.outcome {
@@ -288,6 +323,9 @@ pub fn case_damage(scratch: &Path, meta: usize, id: &str, seed: u64, len: usize,
                     Ok(o) => o,
                     Err(_) => {
                         r.violate("C10", format!("{}: a read accessor of the recovered log panicked", ctx));
+                        let st = Op::State;
+                        let ex2 = r.real.exec(&st);
+                        r.record(&st, &ex2);
                         r.real.log = None;
                         continue;
                     }
